@@ -24,6 +24,7 @@ type gthread struct {
 	started bool
 	lazy    bool
 	quiescing bool
+	settling  bool
 }
 
 type ChoicePoint struct {
